@@ -34,6 +34,7 @@ type Monitors struct {
 	subSched    map[int64][][2]*big.Int // unlock schedule as deposited (unlock time, amount) per accepted create / top-up
 	subDirect   map[int64]*big.Int
 	grantExp    map[[3]int64]int64 // (granter, grantee, kind) -> expiry of the grant as it was given
+	mkCreator   map[string]string  // market uid -> the creator recorded when the market was added (fees are owed to that account)
 }
 
 func NewMonitors() *Monitors {
@@ -319,6 +320,8 @@ func (m *Monitors) c14(c *Chain, o Op, res string) []string {
 		}
 		if !sameList(vault, cur.vault) {
 			v = append(v, fmt.Sprintf("C14 key vault became %v but the approved proposals give %v", cur.vault, vault))
+			// the same fact as a statement about the signed proposal ticket: its effect is not the signed payload (key list, leader index)
+			v = append(v, fmt.Sprintf("C06 the keys installed by an approved proposal are %v, the signed proposal says %v (leader first)", cur.vault, vault))
 		}
 	}
 	// a vote is recorded only with a ticket of the voting key
